@@ -14,6 +14,7 @@ import SkVerif.Lemmas.C14Impute3
 import SkVerif.Lemmas.C14Impute4
 import SkVerif.Lemmas.C14Ols
 import SkVerif.Lemmas.C14Feat
+import SkVerif.Lemmas.C14Slope
 namespace SkVerif.C14
 open SkVerif SkVerif.C14
 
@@ -521,6 +522,24 @@ theorem minMax_closed_form (col : List Rat) (lo hi : Rat) (hlo : min? col = some
   Lem.minMax_apply col lo hi hlo hhi hne c
 
 
+/-! ## SlopeTransformer (the gradient `(w + sqrt(w²+r²))/r` is irrational: the model returns `(w, r)`) -/
+
+/-- what the correspondence compares: `m − 1/m = 2w/r` holds exactly for the roots of the total-least-squares
+quadratic `r·m² − 2w·m − r = 0` -/
+theorem slope_gradient_encoding (w r m : Rat) (hr : r ≠ 0) (hm : m ≠ 0) :
+    m - 1 / m = 2 * w / r ↔ r * m ^ 2 - 2 * w * m - r = 0 := Lem.tls_encoding w r m hr hm
+
+/-- the two roots are negative reciprocals, so the sign (printed next to `2w/r`) picks the gradient; the
+reciprocal of the gradient is never the other root -/
+theorem slope_roots_are_negative_reciprocals (w r m m' : Rat) (hr : r ≠ 0) (hne : m ≠ m')
+    (h : r * m ^ 2 - 2 * w * m - r = 0) (h' : r * m' ^ 2 - 2 * w * m' - r = 0) : m * m' = -1 :=
+  Lem.tls_roots_product w r m m' hr hne h h'
+
+/-- exactly `num_intervals` segments per series (the model's exact-arithmetic split) -/
+theorem slope_number_of_segments (k : Nat) (xs : List Rat) : (slopeSegments k xs).length = k :=
+  Lem.slopeSegments_length k xs
+
+
 -- non-vacuity
 example : WellShaped [[[1, 2, 3], [4, 5]], [[6], [7, 8, 9, 10]]] :=
   ⟨by simp, by intro i hi; simp at hi; rcases hi with rfl | rfl <;> simp⟩
@@ -559,5 +578,8 @@ example : pad (α := Option Rat) none none [[[some 1, some 2, some 3]], [[some 9
     = .ok [[[some 1, some 2, some 3]], [[some 9, none, none]]] := by decide
 example : pad (some 3) (some (1 / 2 : Rat)) [[[some 4]]] [[[some 4]]] = .ok [[[some 4, some (1 / 2), some (1 / 2)]]] := by
   decide +kernel
+-- a ramp of slope 3: (w, r) = (16, 12), and m = 3 satisfies 12·m² − 32·m − 12 = 0 with m − 1/m = 8/3 = 2w/r
+example : slopeWR [1, 4, 7] = (16, 12) := by decide +kernel
+example : slopeSegments 3 [1, 2, 4, 8, 16, 32, 5] = [[1, 2], [4, 8], [16, 32, 5]] := by decide +kernel
 
 end SkVerif.C14
